@@ -265,10 +265,21 @@ def check(ctx):
     import c02 as _c02, c11 as _c11
     nm = core.adopt(ctx, _c02, lambda o: o["rule"] == "C02.d" and "ReactionCommand" in o["key"] and "one-runner-call-per-path" in o["key"], "C08.f")
     nm += core.adopt(ctx, _c11, lambda o: o["rule"] == "C11.prepared" and "appends-exactly-one-entry" in o["key"], "C08.f")
-    ctx.floor("C08.f", nm, 3, "shared one-run-per-scheduled-reaction obligations (C02.d, C11.prepared)")
+    nm2 = core.adopt(ctx, _c02, lambda o: o["rule"] == "C02.a" and any(k in o["key"] for k in ("single-disposition", "dispositions=", "abort-only")), "C08.f")
+    ctx.floor("C08.f", nm + nm2, 5, "shared one-run-per-scheduled-reaction obligations (C02.a, C02.d, C11.prepared): a scheduled reaction runs, is postponed or is aborted only because its target is gone")
     nk = core.adopt(ctx, c01, lambda o: o["rule"] == "C01.a" and "entity-scoped-dispatch:every-component-kind" in o["key"], "C08.d")
     ctx.floor("C08.d", nk, 1, "shared entity-scoped dispatch coverage (C01.a)")
 
+    # the tracker component is never taken off a live entity by the crate: removing it runs its Drop, which reports the
+    # (live) entity as despawned
+    rm = []
+    for body in prog.bodies:
+        for b, t, fr in body.iter_calls():
+            if fr and any("DespawnTracker" in a for a in fr.get("args", [])) and lib.tail(mir.fn_name(fr), 1) in ("remove", "take", "remove_by_id", "retain", "remove_with_requires", "clear", "try_remove"):
+                rm.append((body, b, lib.tail(mir.fn_name(fr), 2)))
+    ctx.check(not rm, "C08.c", "DespawnTracker:never-removed-from-a-live-entity", rm[0][0].loc(rm[0][1]) if rm else "",
+              "no site removes the DespawnTracker component", "the DespawnTracker is removed from its entity by %s: its Drop sends a despawn notification for an entity that is alive; "
+              "a despawn reactor registered before the next poll runs for it" % [(lib.fkey(bd), n_) for bd, _, n_ in rm])
     _one_checker_per_component(ctx, prog)
     _removal_scheduler_shape(ctx, prog)
 
@@ -433,6 +444,41 @@ def _removal_scheduler_shape(ctx, prog):
                     d = m.blocks[L2.driver]["term"]
                     if d["args"] and _derives_from_call(m, d["args"][0], c):
                         ok_buf = True
+    # ... all of them: nothing edits the returned buffer before it is dispatched (a removal that is filtered out is lost,
+    # the checker's cursor has already moved past it)
+    edits = []
+    for L in outer:
+        for b, t, fr in m.iter_calls(L.blocks):
+            if fr is None or lib.tail(mir.fn_name(fr), 1) in ("len", "is_empty", "iter", "deref", "into_iter", "next", "drain", "clear", "as_slice", "call", "get_mut", "queue", "commands"):
+                continue
+            for a in t["args"]:
+                p = op_place(a)
+                if p is None or p["p"]:
+                    continue
+                # follow `&mut (*&mut buf)` reborrow chains back to the borrowed local
+                cur, hops = p["l"], 0
+                while hops < 8:
+                    ds = [d for d in m.defs.get(cur, []) if d[0] == "stmt" and (("ref" in d[3] and d[3].get("mut")) or "use" in d[3])]
+                    if len(ds) != 1:
+                        break
+                    if "use" in ds[0][3]:
+                        q2 = op_place(ds[0][3]["use"])       # a moved reference (parameter binding of an inlined helper)
+                        if q2 is None or q2["p"]:
+                            break
+                        cur, hops = q2["l"], hops + 1
+                        continue
+                    q = ds[0][3]["ref"]
+                    if not q["p"]:
+                        if m.local_ty(q["l"]).startswith("alloc::vec::Vec<bevy_ecs::entity::Entity"):
+                            edits.append((b, lib.tail(mir.fn_name(fr), 2)))
+                        break
+                    if q["p"] == ["deref"]:
+                        cur, hops = q["l"], hops + 1
+                        continue
+                    break
+    ctx.check(not edits, "C08.d", "schedule_removal_reactions:returned-entities-not-filtered", "%s:%d" % (m.file, m.line),
+              "the entities returned by the collector reach the dispatch loop unedited",
+              "the buffer of removed entities is edited before it is dispatched (%s): a removal that is filtered out is never reacted to" % [e[1] for e in edits])
     ctx.check(ok_call, "C08.d", "schedule_removal_reactions:every-checker-is-polled", "%s:%d" % (m.file, m.line),
               "each iteration over the removal checkers calls that checker's collector before dispatching",
               "the loop over the removal checkers does not call the checker's collector on every iteration (removals are never detected)")
